@@ -72,11 +72,11 @@ const (
 
 // Config is everything a run decides up front. One Config + the code = one execution.
 type Config struct {
-	Seed    uint64
-	Policy  string  // random | pct | sticky
-	PCTDrop int     // number of priority change points (pct)
-	StickyP float64 // switch probability (sticky)
-	PCTRange int    // change points are drawn from steps [1,PCTRange]
+	Seed     uint64
+	Policy   string  // random | pct | sticky
+	PCTDrop  int     // number of priority change points (pct)
+	StickyP  float64 // switch probability (sticky)
+	PCTRange int     // change points are drawn from steps [1,PCTRange]
 	// Replay, when non-nil, replaces the PRNG for scheduling and select-order decisions:
 	// every decision consumes the next element (missing elements are 0).
 	Replay []int
@@ -272,9 +272,9 @@ func (s *Sim) Spawn(fn func()) *Task {
 }
 
 // Go1..Go4 replace `go f(a, ...)`: operands are evaluated by the spawning goroutine.
-func Go1[A any](f func(A), a A)                         { Go0(func() { f(a) }) }
-func Go2[A, B any](f func(A, B), a A, b B)              { Go0(func() { f(a, b) }) }
-func Go3[A, B, C any](f func(A, B, C), a A, b B, c C)   { Go0(func() { f(a, b, c) }) }
+func Go1[A any](f func(A), a A)                       { Go0(func() { f(a) }) }
+func Go2[A, B any](f func(A, B), a A, b B)            { Go0(func() { f(a, b) }) }
+func Go3[A, B, C any](f func(A, B, C), a A, b B, c C) { Go0(func() { f(a, b, c) }) }
 func Go4[A, B, C, D any](f func(A, B, C, D), a A, b B, c C, d D) {
 	Go0(func() { f(a, b, c, d) })
 }
